@@ -307,6 +307,8 @@ def r6(chk, ctx, handlers):
 
 
 def run(chk, ctx):
+    from . import generic
+    generic.definite_assignment(chk, ctx, ['state_engine'], "C14.DA")   # no local is read before it is bound (UnboundLocalError = an arbitrary exception)
     from . import c08
     c08.r1(chk, ctx)          # 'timestamps by instant': every Timestamp* operator goes through this parser
     handlers = r1(chk, ctx)
